@@ -1,5 +1,7 @@
 """Role → function resolution. Private functions are found by their *role* (who calls what with which
 type), so renaming them does not disturb the rules; only public API names are fixed."""
+import re
+
 from . import facts as F
 from .facts import norm_ty, find_all
 from . import peg
@@ -58,9 +60,34 @@ class Anchors:
         fn = self.f.fn(self.role("parse_pub"))
         for k in self._resolve_calls(fn):
             g = self.f.fns[k]
-            if "RunOptions" in g.node["output"] and g.impl is None:
+            if g.impl is None and self.result_record(k) is not None:
                 return k
         return None
+
+    def result_record(self, key):
+        """What the inner parse function yields on success, as a record: a tuple `(RunOptions, Exp)` or a crate struct with
+        one field of each type.  -> {"kind", "name", "fields": [(accessor, type)], "opts": accessor, "tree": accessor} or None"""
+        g = self.f.fns.get(key)
+        if g is None:
+            return None
+        m = re.fullmatch(r"(?:PResult|Result)<(.*?)(?:,[A-Za-z_:]+)?>", norm_ty(g.node["output"] or ""))
+        if not m:
+            return None
+        ty = m.group(1)
+        if ty.startswith("(") and ty.endswith(")"):
+            parts = F.split_generics(ty[1:-1])
+            fields = [(i, t.strip()) for i, t in enumerate(parts)]
+            kind, name = "tuple", None
+        elif ty in self.f.structs and not self.f.structs[ty].get("tuple"):
+            fields = [(fl["name"], norm_ty(fl["ty"])) for fl in self.f.structs[ty]["fields"]]
+            kind, name = "struct", ty
+        else:
+            return None
+        opts = [a for a, t in fields if t.split("::")[-1] == "RunOptions"]
+        tree = [a for a, t in fields if t.split("::")[-1] in ("Exp", "Rc<Expression>", "Expression") or t.endswith("Rc<Expression>") or t.endswith("Rc<ast::Expression>")]
+        if len(fields) != 2 or len(opts) != 1 or len(tree) != 1:
+            return None
+        return {"kind": kind, "name": name, "fields": fields, "opts": opts[0], "tree": tree[0]}
 
     def _r_lex(self):
         fn = self.f.fn(self.role("parse_inner"))
